@@ -581,3 +581,64 @@ func TestC15ExpanderAbort(t *testing.T) {
 		}
 	}
 }
+
+// ---------------------------------------------------------------------------
+// one-shot helpers (hashes.go Sum*, shake.go *ShakeSum*, k12.Draft10Sum)
+
+func TestC15OneShot(t *testing.T) {
+	defer vlib.Done()
+	sub := "oneshot"
+	lens := []int{0, 1, 71, 72, 73, 103, 104, 105, 135, 136, 137, 143, 144, 145, 167, 168, 169, 8191, 8192, 8193, 16384, 40960, 40961}
+	vlib.Check(t, vlib.N(300, 3000), func(t *rapid.T) {
+		var n int
+		if rapid.Bool().Draw(t, "edge") {
+			n = rapid.SampledFrom(lens).Draw(t, "len")
+		} else {
+			n = rapid.IntRange(0, 700).Draw(t, "len")
+		}
+		msg := make([]byte, n)
+		if n > 0 {
+			vlib.FillRandom(t, msg, "msg")
+		}
+		ol := rapid.SampledFrom([]int{0, 1, 32, 135, 136, 137, 167, 168, 169, 339, 1000}).Draw(t, "olen")
+		D := drawD(t)
+		ctx := vlib.Bytes(t, 0, 300, "ctx")
+		vlib.Eval(sub)
+		bad := func(what string, got, want []byte) bool {
+			if !bytes.Equal(got, want) {
+				vlib.Report(t, "C15/oneshot/"+what, fmt.Sprintf("|msg|=%d out=%d D=%#x |ctx|=%d: got %s want %s", n, ol, D, len(ctx), vlib.Hex(got), vlib.Hex(want)))
+				return true
+			}
+			return false
+		}
+		d224, d256, d384, d512 := sha3.Sum224(msg), sha3.Sum256(msg), sha3.Sum384(msg), sha3.Sum512(msg)
+		w224, w256, w384, w512 := xsha3.Sum224(msg), xsha3.Sum256(msg), xsha3.Sum384(msg), xsha3.Sum512(msg)
+		if bad("Sum224", d224[:], w224[:]) || bad("Sum256", d256[:], w256[:]) || bad("Sum384", d384[:], w384[:]) || bad("Sum512", d512[:], w512[:]) {
+			return
+		}
+		o := make([]byte, ol)
+		sha3.ShakeSum128(o, msg)
+		if bad("ShakeSum128", o, xShake128(msg, ol)) {
+			return
+		}
+		sha3.ShakeSum256(o, msg)
+		if bad("ShakeSum256", o, xShake256(msg, ol)) {
+			return
+		}
+		sha3.TurboShakeSum128(o, msg, D)
+		if bad("TurboShakeSum128", o, keccak.TurboSHAKE128(msg, D, ol)) {
+			return
+		}
+		sha3.TurboShakeSum256(o, msg, D)
+		if bad("TurboShakeSum256", o, keccak.TurboSHAKE256(msg, D, ol)) {
+			return
+		}
+		k12.Draft10Sum(o, msg, ctx)
+		if bad("Draft10Sum", o, keccak.KT128(msg, ctx, ol)) {
+			return
+		}
+		if n > 168 {
+			vlib.NonTrivial(sub, "multi-block", msg, ctx, []byte{D, byte(ol), byte(ol >> 8)})
+		}
+	})
+}
